@@ -85,3 +85,16 @@ Lemma requested_bypass :
   snd (run init_store (auto_assign byp_cfg (byp_req []))) = RIPs [] EOther /\
   snd (run init_store (auto_assign byp_cfg (byp_req [(167772416, 8)]))) = RIPs [(167772416, 30%nat)] ENone.
 Proof. vm_compute. split; reflexivity. Qed.
+
+(* the hypotheses of the sequential cap theorem are satisfiable by a run that really claims a block *)
+Definition cap_cfg1 : config :=
+  {| g_pools := g_pools (cap_cfg true); g_resv := []; g_strict := true; g_autoalloc := true; g_maxblocks := 1;
+     g_retries := 1; g_nodes := [(0, [])]; g_fx := true; g_capfix := true |}.
+Definition cap_req1 : request :=
+  {| q_node := 0; q_use := UWorkload; q_ns := []; q_pools := []; q_maxblocks := 0; q_handle := 1; q_tag := 0; q_num := 1 |}.
+
+Lemma cap_fixed_hyps_inhabited :
+  g_capfix cap_cfg1 = true /\ g_retries cap_cfg1 = 1%nat /\
+  forallb (fun p => selects_node cap_cfg1 cap_req1 p) (enabled_pools cap_cfg1) = true /\
+  snd (run init_store (auto_assign cap_cfg1 cap_req1)) = RIPs [(167772416, 30%nat)] ENone.
+Proof. vm_compute. repeat split. Qed.
